@@ -28,6 +28,8 @@ func SendAccountDebitRequest(
 	if err != nil {
 		return nil, err
 	}
+	// one connection per exchange: release it (and its watchdog) when the exchange is over
+	defer conn.Close()
 
 	meta, ok := smpeer.FromContext(conn.Context())
 	if !ok {
